@@ -229,12 +229,13 @@ def run_history(wd: Path, driver: str, names: Dict[str, str], hist: List[Dict[st
     for st in hist:
         if st["op"] == "edit":
             materialise(pipe.src, st["dir"], names)
-            events.append({"op": "edit", "pk": "", "dir": st["dir"], "ok": True, "unchanged": True, "exc": "",
+            events.append({"op": "edit", "pk": "", "dir": st["dir"], "ok": True, "unchanged": True, "exc": "", "probes": [],
                            "exists": False, "tree": [], "src": [], "by": "", "nfiles": -1, "haswrote": False, "wrote": [],
                            "filemeta": True, "note": ""})
             continue
         before = pipe.digests()
         ok, exc = True, ""
+        del packerplug.PROBES[:]
         try:
             (pipe.pack if st["op"] == "pack" else pipe.update)({"pa": "vf.pa", "pb": "vf.pb"}[st["pk"]])
         except Exception as ex:
@@ -246,7 +247,7 @@ def run_history(wd: Path, driver: str, names: Dict[str, str], hist: List[Dict[st
             # "no cleanup is done ... the user is responsible for removing inconsistent files that were created"
             for nm in set(after) - set(before):
                 (wd / nm).unlink()
-        ev = {"op": st["op"], "pk": st["pk"], "dir": [], "ok": ok, "exc": exc,
+        ev = {"op": st["op"], "pk": st["pk"], "dir": [], "ok": ok, "exc": exc, "probes": sorted(set(packerplug.PROBES)),
               "unchanged": all(after.get(k) == v for k, v in before.items())}
         ev.update(pipe.observe())
         events.append(ev)
@@ -390,6 +391,7 @@ def conformance(rep, wd: Path, quick: bool, rng: random.Random, pairs: Optional[
     rep.evaluations += calls
     rep.parts["packer_lifecycle_conformance"] = {"histories": len(traces), "calls": calls, "carried_out": okcalls, "updates_carried_out": upd,
                                                  "refused": calls - okcalls, "drivers": drivers,
+                                                 "contract_guard_attempts_from_inside_packers": packerplug.ATTEMPTS[0],
                                                  "update_driven_by": "PGPacker.update" if real_update else "harness glue around Packer.update (PGPacker.update unusable as written)"}
     for (drv, names), t, v in zip(meta, traces, verd):
         for step, clause in v:
@@ -413,9 +415,10 @@ def conformance(rep, wd: Path, quick: bool, rng: random.Random, pairs: Optional[
         j = idx[0]
         m1 = copy.deepcopy(t); m1[j]["tree"] = m1[j]["tree"][:-1]; muts.append(m1)
         m2 = copy.deepcopy(t); m2[j]["src"] = m2[j]["src"] + [{"p": ["zz"], "k": "f", "v": "h1"}]; muts.append(m2)
+        m4 = copy.deepcopy(t); m4[j]["probes"] = ["close"]; muts.append(m4)
         if t[j]["haswrote"]:
             m3 = copy.deepcopy(t); m3[j]["wrote"] = m3[j]["wrote"] + [["zz", "q"]]; muts.append(m3)
-        if len(muts) >= 9:
+        if len(muts) >= 12:
             break
     if muts:
         vm = common.validate_traces("Trace_Packer", muts, wd, tag="_selftest")
